@@ -265,8 +265,11 @@ def process_leg(params, res):
         # the cyclic frames stop coming back after so many cycles (cable
         # pulled behind the master): cancelling must still end the group
         silent = rng.choice([None, None, 2, 8, 40])
+        restart = i % 2 == 1
+        if restart:
+            delay = max(delay, 0.45)      # the first run is cycling
         desc = dict(kind="process", cancel_after=delay, terms=terms,
-                    cyclic_frames_answered=silent)
+                    cyclic_frames_answered=silent, restart=restart)
         if silent is not None:
             res.count("process_points_on_a_bus_that_falls_silent")
         tmp = tempfile.mkdtemp(prefix="vf-c24p-")
@@ -284,6 +287,65 @@ def process_leg(params, res):
             running = not task.done()
             ops_at_cancel = ec.ops.value
             task.cancel()
+            if restart:
+                # the group is started again right after the cancellation
+                # was delivered (one pass of the event loop), before the
+                # first subprocess had a chance to look at its flag; then
+                # the second run is cancelled as well
+                await asyncio.sleep(0)
+                old_proc = sg.process
+                task2 = sg.start()
+                # bounded progress: the first subprocess is over before
+                # hundreds of further frames have been exchanged (it looks
+                # at its flag once per cycle)
+                ops0 = ec.ops.value
+                t0 = time.time()
+                lingering = False
+                while old_proc.is_alive():
+                    await asyncio.sleep(0.002)
+                    if ec.ops.value - ops0 > 300:
+                        lingering = True
+                        break
+                    if time.time() - t0 > 90:
+                        break
+                if lingering:
+                    for p_ in (old_proc, sg.process):
+                        if p_.is_alive():
+                            p_.kill()
+                    task.cancel()
+                    task2.cancel()
+                    await asyncio.gather(task, task2, return_exceptions=True)
+                    return "restart-first-subprocess-keeps-running", \
+                        running, None, ec.ops.value - ops0
+                await asyncio.sleep(0.1)
+                ops_at_cancel = ec.ops.value
+                task2.cancel()
+                t0 = time.time()
+                verdict = None
+                while not (task.done() and task2.done()):
+                    await asyncio.sleep(0.002)
+                    if ec.ops.value - ops_at_cancel > 400:
+                        verdict = "keeps-running"
+                        break
+                    if time.time() - t0 > 90:
+                        verdict = "watchdog"
+                        break
+                old_alive = old_proc.is_alive()
+                for p_ in (old_proc, sg.process):
+                    if p_.is_alive():
+                        p_.kill()
+                task.cancel()
+                task2.cancel()
+                await asyncio.gather(task, task2, return_exceptions=True)
+                if verdict == "keeps-running" or (verdict is None
+                                                  and old_alive):
+                    return ("restart-first-subprocess-keeps-running"
+                            if old_alive else "keeps-running"), running, \
+                        None, ec.ops.value - ops_at_cancel
+                if verdict:
+                    return verdict, running, None, 0
+                return "restart-ok", running, False, \
+                    ec.ops.value - ops_at_cancel
             t0 = time.time()
             verdict = None
             while not task.done():
@@ -338,6 +400,17 @@ def process_leg(params, res):
         if oc == "watchdog":
             res.inconc(f"process-based group: neither exit nor progress "
                        f"within 90 s after cancel ({desc})")
+            continue
+        if oc == "restart-ok":
+            res.count("process_groups_started_again_after_cancel")
+            continue
+        if oc == "restart-first-subprocess-keeps-running":
+            res.violation(
+                "unexplained:process-child-of-the-first-run-keeps-running",
+                f"the group was cancelled after {delay}s and started again "
+                f"one loop pass later; the subprocess of the first run was "
+                f"still alive {ops_after} frames later (or after both runs "
+                f"were cancelled)", case=desc)
             continue
         if oc == "keeps-running":
             res.violation("unexplained:process-child-keeps-running",
